@@ -113,7 +113,8 @@ theorem lcEff_none {g : G} (h : g.m.lastEvents.peripheral = none) (i : Nat) : lc
 theorem toList_none {α : Type} {o : Option α} (h : o = none) : o.toList = [] := by subst h; rfl
 
 theorem inv14_step {fp : FdlParams} (hfp : FpOk fp) {g g' : G} (hI : Inv fp g) (h4 : Inv14 g) (op : Op)
-    (h : gstep fp g op = .ok g') : Inv14 g' := by
+    (h : gstep fp g op = .ok g') (hu : g'.tainted = false) : Inv14 g' := by
+  have hu0 := tainted_mono op h hu
   -- what `collected` gives for the state before a callback
   have before : (g.collected && !g.dirty) = true →
       g.m.lastEvents.peripheral = none ∧ g.produced = g.taken ∧
@@ -204,7 +205,7 @@ theorem inv14_step {fp : FdlParams} (hfp : FpOk fp) {g g' : G} (hI : Inv fp g) (
           simp only [lcEff, G.polled, hev, hij, if_false]
           rw [upd_other _ _ (fun h => hij h.symm)]
   | reply a t =>
-    obtain ⟨index, i, p, p', ev, ho, hcy, hc, hpa, hal, hspec, rfl⟩ := reply_form hI h
+    obtain ⟨index, i, p, p', ev, ho, hcy, hc, hpa, hal, hspec, rfl⟩ := reply_form hI hu0 h
     have hi := (curSlot_spec hc).2.2.1
     refine ⟨(by intro hd; cases hd), ?_, ?_⟩
     · intro hcc
@@ -233,6 +234,56 @@ theorem inv14_step {fp : FdlParams} (hfp : FpOk fp) {g g' : G} (hI : Inv fp g) (
         cases ev with
         | none => rfl
         | some e => simp [hij]
+  | resetAddr slot a =>
+    simp only [gstep] at h
+    split at h
+    · cases h
+    · cases hw : g.m.resetAddress slot a with
+      | none => rw [hw] at h; cases h
+      | some m' =>
+        rw [hw] at h
+        simp only [Res3.ok.injEq] at h; subst h
+        unfold Master.resetAddress Master.peripheral? at hw
+        cases hs : g.m.slots.getD slot none with
+        | none => rw [hs] at hw; cases hw
+        | some p =>
+          rw [hs] at hw
+          simp only [Option.some.injEq] at hw; subst hw
+          have hj : g.m.slots[slot]? = some (some p) := by
+            rw [List.getD_eq_getElem?_getD] at hs
+            cases hh : g.m.slots[slot]? with
+            | none => rw [hh] at hs; cases hs
+            | some x => rw [hh] at hs; simp only [Option.getD_some] at hs; rw [hs]
+          simp only [Bool.or_eq_false_iff] at hu
+          have hpend : ∀ he, g.m.lastEvents.peripheral = some he → he.index ≠ slot := by
+            intro he hhe hidx
+            have h2 := hu.2
+            simp [resetTaints, hhe, hidx] at h2
+          refine ⟨h4.clean, h4.exact, ?_⟩
+          intro hcc i q hq
+          simp only at hq
+          rw [List.getElem?_set] at hq
+          by_cases hij : slot = i
+          · subst hij
+            have hl : slot < g.m.slots.length := by
+              rcases Nat.lt_or_ge slot g.m.slots.length with h | h
+              · exact h
+              · rw [List.getElem?_eq_none h] at hj; cases hj
+            simp only [hl, if_true, Option.some.injEq] at hq
+            subst hq
+            refine ⟨0, ?_, by omega, by simp [Peripheral.resetAddress], by simp [Peripheral.resetAddress]⟩
+            simp only [lcEff]
+            cases hev : g.m.lastEvents.peripheral with
+            | none => simp [G.upd]
+            | some he => simp [G.upd, hpend he hev]
+          · simp only [hij, if_false] at hq
+            obtain ⟨v, hv, hok⟩ := h4.lc hcc i q hq
+            refine ⟨v, ?_, hok⟩
+            have hne : ¬ i = slot := fun h => hij h.symm
+            simp only [lcEff] at hv ⊢
+            cases hev : g.m.lastEvents.peripheral with
+            | none => rw [hev] at hv; simpa [G.upd, hne] using hv
+            | some he => rw [hev] at hv; simpa [G.upd, hne] using hv
   | timeout a =>
     simp only [gstep] at h
     split at h
